@@ -20,7 +20,9 @@ GPaths == { [p |-> "a", gen |-> FALSE], [p |-> "d/a", gen |-> FALSE], [p |-> "d/
             [p |-> ".checkpoints/c", gen |-> TRUE],
             \* look-alikes of the reserved locations, which are ordinary files
             [p |-> ".datamonrc", gen |-> FALSE], [p |-> ".conflicts.txt", gen |-> FALSE],
-            [p |-> "d/.datamon/x", gen |-> FALSE], [p |-> ".checkpoints-old/x", gen |-> FALSE] }
+            [p |-> "d/.datamon/x", gen |-> FALSE], [p |-> ".checkpoints-old/x", gen |-> FALSE],
+            \* a sibling that differs from "a" only by leading dots
+            [p |-> ".a", gen |-> FALSE] }
 GLabels == { [n |-> "v1.2.3", semver |-> TRUE], [n |-> "latest", semver |-> FALSE],
              [n |-> "a_b", semver |-> FALSE], [n |-> "1.0.0", semver |-> TRUE] }
 
